@@ -3,6 +3,8 @@ import OmbottModel.Lemmas.RouterEditProps
 import OmbottModel.Lemmas.RouterEditWitness
 import OmbottModel.Lemmas.RouterEditMaps
 import OmbottModel.Lemmas.RouterParse
+import OmbottModel.Lemmas.RouterEditFresh
+import OmbottModel.Lemmas.RouterEditFreshWitness
 /-!
 C11 — The router after any edit history equals a freshly built router.
 Property theorems only; helper lemmas live in `Lemmas/RouterEdit*.lean`.
@@ -187,14 +189,43 @@ theorem history_eq_fresh (upper : Str → Str) (ops ops' : List EditOp)
       (F.byRule cenv rule).map (fun o => (o.bind F.obj?).map Route.view)) := by
   exact answers_of_same_survivors (editRun_inv upper ops hok) (editRun_inv upper ops' hok') hsame env hns
 
-/-- **… and as the router freshly built from its survivors.**  `R.fresh` (`Model/RouterEdit.lean`,
-section 11) registers the routes (with their method tables), names and hook pairs of `R` one by
-one on a new router.  It is a legitimate router state (all invariants of `router_refines_maps`
-hold in it, nothing in it is unspecified), and whenever it holds the same three maps as `R` the
-edited router answers every path, name and rule lookup exactly as it does, hooks included when no
-prefix of the matched pattern is at or below a removed `prefix*`. -/
+/-- **Registering the survivors on an empty router reproduces the three maps.**  `R.fresh`
+(`Model/RouterEdit.lean`, section 11; the function the driver's `FS` op runs) reads the survivors
+off the edited router — `routes` with the route objects, `named_routes`, the hook pairs of the
+tree — and registers them one call at a time on a new `RadiRouter()`.  After every edit history
+every one of these calls is accepted (all patterns come from one well-formed tree, so no filter
+clash; no name clash; no method clash) and stores what it was given: the rebuilt router holds the
+same `routes` map (pattern string ↦ pattern, stored names, method table in order), the same
+`named_routes` map, and the same pair in `hooks` at every pattern that is not at or below a
+removed `prefix*` (there the `hooks` index of the edited router keeps pairs its tree has dropped,
+which the property leaves unspecified). -/
+theorem fresh_same_maps (upper : Str → Str) (ops : List EditOp) (hok : ∀ op ∈ ops, EditOK op) :
+    let R := Router.editRun upper ops
+    (∀ ps, R.routeAt ps = R.fresh.routeAt ps) ∧ (∀ nm, R.nameAt nm = R.fresh.nameAt nm) ∧
+    (∀ ps, ¬ taintRun ops ps → R.hookAt ps = R.fresh.hookAt ps) :=
+  fresh_maps (editRun_inv upper ops hok) (editRun_finv upper ops hok)
+
+/-- `fresh_same_maps` when nothing is unspecified (no `prefix*` removal reached a hook pattern that
+was not cleared by `remove_hook` afterwards; `taintRun_none`: in particular every history without
+`prefix*` removals): the edited router and the one rebuilt from its survivors hold the same
+survivors.  This was the hypothesis `hsame` of earlier versions of `history_eq_fresh_built`. -/
+theorem fresh_same_survivors (upper : Str → Str) (ops : List EditOp) (hok : ∀ op ∈ ops, EditOK op)
+    (hT : ∀ ps, ¬ taintRun ops ps) :
+    SameSurvivors (Router.editRun upper ops) (Router.editRun upper ops).fresh := by
+  obtain ⟨h1, h2, h3⟩ := fresh_same_maps upper ops hok
+  exact ⟨h1, h2, fun ps => h3 ps (hT ps)⟩
+
+/-- **The router after any edit history equals the router freshly built from its survivors.**
+For every history of editing calls in the domain (`EditOK`: no CR in a rule text, no registered
+rule ending with `*`) and every filter environment without `rex` selectors: `R.fresh` is a
+legitimate router state (all invariants of `router_refines_maps` hold in it, nothing in it is
+unspecified), and the edited router answers every path with every method list (handler, method,
+keyword arguments / 404 / 405 with the same `Allow`), every lookup by name and every lookup by
+rule exactly as `R.fresh` does; the hooks delivered with a match are the same too, provided no
+prefix of the matched pattern is at or below a removed `prefix*` (the property specifies `prefix*`
+removal for routes only).  No hypothesis about the survivors is left: `fresh_same_maps` supplies
+the equality of the maps. -/
 theorem history_eq_fresh_built (upper : Str → Str) (ops : List EditOp) (hok : ∀ op ∈ ops, EditOK op)
-    (hsame : SameSurvivors (Router.editRun upper ops) (Router.editRun upper ops).fresh)
     (env : FilterEnv) (hns : NoSel env) :
     let R := Router.editRun upper ops
     EInv R.fresh (fun _ => False) ∧
@@ -208,20 +239,9 @@ theorem history_eq_fresh_built (upper : Str → Str) (ops : List EditOp) (hok : 
       (R.fresh.byRule cenv rule).map (fun o => (o.bind R.fresh.obj?).map Route.view)) := by
   have hR := editRun_inv upper ops hok
   have hF := fresh_einv hR
-  obtain ⟨h1, h2, h3, h4⟩ := answers_of_same_survivors hR hF hsame env hns
+  obtain ⟨m1, m2, m3⟩ := fresh_same_maps upper ops hok
+  obtain ⟨h1, h2, h3, h4⟩ := answers_of_same_maps hR hF m1 m2 (fun ps hT _ => m3 ps hT) env hns
   exact ⟨hF, h1, fun path ms rule vs hsr hT => h2 path ms rule vs hsr (fun q hq => ⟨hT q hq, fun hf => hf⟩), h3, h4⟩
-
-/- OPEN: theorem fresh_same_survivors (upper : Str → Str) (ops : List EditOp)
-      (hok : ∀ op ∈ ops, EditOK op) (hT : ∀ ps, ¬ taintRun ops ps) :
-      SameSurvivors (Router.editRun upper ops) (Router.editRun upper ops).fresh
-   i.e. the hypothesis `hsame` of `history_eq_fresh_built` always holds (when nothing is
-   unspecified).  Not proved in Lean: it needs "every registration of a survivor is accepted and
-   stores what it was given" (no filter clash among patterns of one well-formed tree, no dead
-   branches in the tree being built, method tables rebuilt in order) as a fold over the three
-   indexes.  Covered instead by the correspondence check on both sides: for every history it
-   plays, the driver compares `R` with `R.fresh` (op `FS`: answers, delivered hooks, every name,
-   the routes index) and the harness compares the edited real application with a real one rebuilt
-   from the survivors. -/
 
 /-- **Route hooks fire for exactly the matched routes whose pattern extends the hook's, outermost
 first, with the matched path prefix.**  When `resolve` finds a handler, the plain matcher selects
@@ -311,8 +331,13 @@ example : (∀ op ∈ exOps, EditOK op) ∧ (∀ op ∈ exOpsF, EditOK op) ∧
   · unfold Router.hookAt
     rw [k1]
 
-/-- `history_eq_fresh_built`: for the example history the router rebuilt from the survivors holds
-the same three maps as the edited one -/
+/-- `fresh_same_maps`, `history_eq_fresh_built`: the example history (accepted and rejected adds,
+a hook, an exact and a `prefix*` removal) meets the hypothesis, and the router rebuilt from the
+survivors holds the same three maps as the edited one, seen by evaluation -/
+example : ∀ op ∈ exOps, EditOK op := exOps_ok
+
+/-- … and the conclusion of `fresh_same_maps` on it (here even all of `SameSurvivors`: the removed
+prefix `/x` held no hook) -/
 example : SameSurvivors (Router.editRun id exOps) (Router.editRun id exOps).fresh := by
   have h1 : (Router.editRun id exOps).routes = [("ab".toList, 0)] := rfl
   have h2 : (Router.editRun id exOps).fresh.routes = [("ab".toList, 0)] := rfl
@@ -331,6 +356,30 @@ example : SameSurvivors (Router.editRun id exOps) (Router.editRun id exOps).fres
     split <;> simp [o1]
   · unfold Router.hookAt
     rw [k1]
+
+/-- `fresh_same_survivors`: a history with a removal that leaves nothing unspecified -/
+example : (∀ op ∈ exOps.take 4, EditOK op) ∧ (∀ ps, ¬ taintRun (exOps.take 4) ps) ∧
+    (Router.editRun id (exOps.take 4)).objs.length = 2 ∧ (Router.editRun id (exOps.take 4)).routes.length = 1 := by
+  refine ⟨fun op h => exOps_ok op (List.mem_of_mem_take h), taintRun_none _ ?_, rfl, rfl⟩
+  intro cenv rule p hmem hp
+  simp only [exOps, exAdd, List.take, List.mem_cons, List.mem_nil_iff, or_false, EditOp.removeRule.injEq,
+    reduceCtorEq, false_or] at hmem
+  obtain ⟨rfl, rfl⟩ := hmem
+  have h0 : parseRule cenv0 "/abc".toList = .ok ⟨exABC, [], exABC⟩ := rfl
+  rw [h0] at hp; cases hp
+  rfl
+
+/-- the hypothesis `hT` of `fresh_same_survivors` cannot be dropped: after `remove('/ab*')` the
+`hooks` index still lists the pair at `/ab/c` which the tree (and so the rebuilt router) no longer
+holds — the unspecified part of the property -/
+example : (∀ op ∈ exOpsT, EditOK op) ∧
+    ¬ SameSurvivors (Router.editRun id exOpsT) (Router.editRun id exOpsT).fresh := by
+  refine ⟨exOpsT_ok, fun h => ?_⟩
+  have h1 : (Router.editRun id exOpsT).hookAt "ab/c".toList = some ⟨some 2, none⟩ := rfl
+  have h2 : (Router.editRun id exOpsT).fresh.hookAt "ab/c".toList = none := rfl
+  have := h.2.2 "ab/c".toList
+  rw [h1, h2] at this
+  cases this
 
 /-- a lookup that hits, with a hook delivered; no filter environment entry has a selector -/
 example : NoSel (fun _ _ => none) ∧
